@@ -243,6 +243,39 @@ def run(ctx) -> None:
              "not every tabulated quantity is gathered with the slot map", stmt="results to_grid")
     kg = idx.function(KB, "K__Result.to_grid")
     r2.instance(kg.short)
+    # the gathered object is read-only here: a name that is (a view of) self.data must not be updated in place — the average would be written
+    # into the source rows and a second gathering of the same result starts from the partial sums
+    views_ = set()
+    grew_ = True
+    while grew_:
+        grew_ = False
+        for st_ in ast.walk(kg.node):
+            if isinstance(st_, ast.Assign) and len(st_.targets) == 1 and isinstance(st_.targets[0], ast.Name) and st_.targets[0].id not in views_:
+                v_ = st_.value
+                while isinstance(v_, ast.Subscript) or (isinstance(v_, ast.Call) and isinstance(v_.func, ast.Attribute) and v_.func.attr in ("reshape", "view", "transpose", "swapaxes", "squeeze", "ravel")) \
+                        or (isinstance(v_, ast.Attribute) and v_.attr == "T"):
+                    v_ = v_.value if isinstance(v_, (ast.Subscript, ast.Attribute)) else v_.func.value
+                if norm(v_) == "self.data" or (isinstance(v_, ast.Name) and v_.id in views_):
+                    # fancy (list / array) indexing copies; a scalar or slice index gives a view
+                    sub_ = st_.value
+                    copying_ = isinstance(sub_, ast.Subscript) and isinstance(sub_.slice, (ast.List, ast.Tuple)) and any(isinstance(e_, (ast.List, ast.Name)) for e_ in getattr(sub_.slice, "elts", []))
+                    if not copying_:
+                        views_.add(st_.targets[0].id)
+                        grew_ = True
+    for st_ in ast.walk(kg.node):
+        tg_ = None
+        if isinstance(st_, ast.AugAssign):
+            tg_ = st_.target
+        elif isinstance(st_, ast.Assign) and isinstance(st_.targets[0], ast.Subscript):
+            tg_ = st_.targets[0]
+        if tg_ is None:
+            continue
+        b_ = tg_
+        while isinstance(b_, ast.Subscript):
+            b_ = b_.value
+        if (isinstance(b_, ast.Name) and b_.id in views_) or norm(b_) == "self.data":
+            r2.violation(kg, st_, f"`{norm1(st_)}` updates in place `{norm(b_)}`, which is (a view of) self.data: gathering onto the grid modifies the result it "
+                         f"gathers from, so the same tabulation gathered a second time returns other values")
     km = kg.params[1] if len(kg.params) > 1 else "k_map"
     K = Frag(kg)
     mean = K.find(f"[sum(dataall[ik] for ik in km) / len(km) for km in {km}]") or K.find(f"[sum([dataall[ik] for ik in km]) / len(km) for km in {km}]") \
